@@ -394,10 +394,18 @@ impl Xot {
         if self.next_sibling(reference_node) == Some(new_sibling) {
             return Ok(());
         }
-        self.remove_consolidate_text_nodes(
-            self.previous_sibling(new_sibling),
-            self.next_sibling(new_sibling),
-        );
+        let previous_node = self.previous_sibling(new_sibling);
+        let next_node = self.next_sibling(new_sibling);
+        // if the reference node is the text node that is merged into its
+        // predecessor when the new sibling leaves, that predecessor stands in
+        // for it
+        let reference_node = if self.remove_consolidate_text_nodes(previous_node, next_node)
+            && next_node == Some(reference_node)
+        {
+            previous_node.unwrap()
+        } else {
+            reference_node
+        };
         if self.add_consolidate_text_nodes(
             new_sibling,
             Some(reference_node),
